@@ -338,12 +338,21 @@ func e2eResume(c *Ctx) {
 	base := libraryGoroutines()
 	for k := 0; k < c.N(4, 60); k++ {
 		cfg := baseCfg(r, r.Intn(len(baseCfgs)))
-		h := genHistory(r, cfg, histOpts{units: 4 + r.Intn(5), maxCols: 3, maxRows: 2, rotations: true, ignorables: true, bigOffsets: k%2 == 0})
+		o := histOpts{units: 4 + r.Intn(5), maxCols: 3, maxRows: 2, rotations: true, ignorables: true, bigOffsets: k%2 == 0}
+		if k%2 == 1 {
+			// a resume point in one file with transactions in later files (a rotation and a restart on the way)
+			o.seq = []string{r.PickS("txXid", "txCommit", "ddl"), r.PickS("autoRows", "txXid", "stmtDml"), "rotation",
+				r.PickS("txXid", "ddl", "autoRows"), r.PickS("txCommit", "txRollback", "txXid"), "restart", r.PickS("txXid", "ddl"), "txCommit"}
+		}
+		h := genHistory(r, cfg, o)
 		h.encode(c)
 		f0, o0 := startOf(h)
 		D := strs(h.expectedTxVals(c, h.txs, f0, uint32(o0)))
 		for ti, tx := range h.txs {
-			if !c.Thorough() && r.Chance(1, 2) {
+			if !c.Thorough() && o.seq == nil && r.Chance(1, 2) {
+				continue
+			}
+			if !c.Thorough() && o.seq != nil && ti > 3 {
 				continue
 			}
 			env, err := newE2E(h.tables, 9, nil)
